@@ -261,25 +261,19 @@ def check_c04(ctx):
         ctx.ob('C04.O1', CLS + '._open_part_file',
                'the part file is created by os.open(self.part_path, flags, mode)', False,
                loc=C.enter.loc, detail='no os.open(self.part_path, ...) found on any path of __enter__')
-    # flags: every value stored in self.open_flags folds to a set with O_CREAT|O_EXCL and write access
-    flag_exprs = []
-    for e in creates.values():
-        v = e.extra
-        flags = v.args[1] if len(v.args) > 1 else None
-        ft = txt(flags)
-        if ft == 'self.open_flags':
-            for m in ci.members.values():
-                if isinstance(m, FuncInfo):
-                    for n in ast.walk(m.node):
-                        if isinstance(n, ast.Assign):
-                            for t in n.targets:
-                                if isinstance(t, ast.Attribute) and t.attr == 'open_flags':
-                                    flag_exprs.append((n.value, n, m))
-                        elif isinstance(n, ast.AugAssign) and isinstance(n.target, ast.Attribute) \
-                                and n.target.attr == 'open_flags':
-                            flag_exprs.append((None, n, m))
-        else:
-            flag_exprs.append((e.op.node.args[1] if len(e.op.node.args) > 1 else None, e.op.node, e.op.fn))
+    # flags: every flags value reaching os.open on any path folds to a set with O_CREAT|O_EXCL
+    # and write access; self.open_flags is replaced by each value stored into it
+    stored = []          # (expr, node, method) stored into self.open_flags
+    for m in ci.members.values():
+        if isinstance(m, FuncInfo):
+            for n in ast.walk(m.node):
+                if isinstance(n, ast.Assign):
+                    for t in n.targets:
+                        if isinstance(t, ast.Attribute) and t.attr == 'open_flags':
+                            stored.append((n.value, n, m))
+                elif isinstance(n, ast.AugAssign) and isinstance(n.target, ast.Attribute) \
+                        and n.target.attr == 'open_flags':
+                    stored.append((None, n, m))
 
     def alternatives(expr):
         if isinstance(expr, ast.IfExp):
@@ -290,20 +284,58 @@ def check_c04(ctx):
                 out += alternatives(x)
             return out
         return [expr]
-    for expr, node, m in flag_exprs:
+    base_vals = []
+    for expr, node, m in stored:
         if expr is None:
             ctx.ob('C04.O1', m.fq, 'open flags are modified in place (cannot be folded)', False,
                    loc='%s:%d' % (mod.relpath, node.lineno))
             continue
         for alt in alternatives(expr):
             try:
-                val = folder.fold(alt)
+                base_vals.append((folder.fold(alt), txt(alt), node, m))
             except Unknown as ex:
                 raise AnalysisError('cannot fold open flags %s: %s' % (txt(alt), ex))
-            ok = isinstance(val, Flags) and {'O_CREAT', 'O_EXCL'} <= val and \
-                ('O_RDWR' in val or 'O_WRONLY' in val) and 'O_TRUNC' not in val
-            ctx.ob('C04.O1', m.fq, 'part file is created exclusively: flags %s include O_CREAT|O_EXCL '
-                   'and write access' % txt(alt), ok, loc='%s:%d' % (mod.relpath, node.lineno),
+
+    def feval(e, base):
+        """Flag-set value of expression e with self.open_flags = base."""
+        if txt(e) == 'self.open_flags':
+            return base
+        if isinstance(e, ast.BinOp) and isinstance(e.op, ast.BitOr):
+            return Flags(feval(e.left, base) | feval(e.right, base))
+        if isinstance(e, ast.BinOp) and isinstance(e.op, ast.BitAnd) and isinstance(e.right, ast.UnaryOp) \
+                and isinstance(e.right.op, ast.Invert):
+            return Flags(feval(e.left, base) - feval(e.right.operand, base))
+        if isinstance(e, ast.BinOp) and isinstance(e.op, ast.BitXor):
+            return Flags(feval(e.left, base) ^ feval(e.right, base))
+        try:
+            v = folder.fold(e)
+        except Unknown as ex:
+            raise AnalysisError('cannot fold open flags %s: %s' % (txt(e), ex))
+        if not isinstance(v, Flags):
+            raise AnalysisError('open flags %s do not fold to a flag set' % txt(e))
+        return v
+    seen_flag_vals = {}
+    for p, evs in zip(C.enter_paths, C.enter_evs):
+        for e in evs:
+            if e.kind == 'CREATE':
+                v = e.extra
+                fl = C.w_enter.expand(v.args[1]) if len(v.args) > 1 else None
+                if fl is None:
+                    for kw in v.keywords:
+                        if kw.arg == 'flags':
+                            fl = C.w_enter.expand(kw.value)
+                seen_flag_vals.setdefault(txt(fl), (fl, e))
+    for ft, (fl, e) in sorted(seen_flag_vals.items()):
+        if fl is None:
+            ctx.ob('C04.O1', CLS + '._open_part_file', 'os.open is given explicit flags', False, loc=C.loc(e.op))
+            continue
+        uses_base = 'self.open_flags' in ft
+        for bval, btxt, bnode, bm in (base_vals if uses_base else [(None, '-', e.op.node, e.op.fn)]):
+            val = feval(fl, bval)
+            ok = {'O_CREAT', 'O_EXCL'} <= val and ('O_RDWR' in val or 'O_WRONLY' in val) and 'O_TRUNC' not in val
+            ctx.ob('C04.O1', CLS + '._open_part_file',
+                   'part file is created exclusively: flags `%s` (with self.open_flags = %s) include '
+                   'O_CREAT|O_EXCL and write access, no O_TRUNC' % (ft, btxt), ok, loc=C.loc(e.op),
                    detail='folded to %r' % (val,))
     # O2 co-location: every definition of self.part_path derives from the destination
     n_pp = 0
